@@ -172,7 +172,7 @@ def gauss2d(yy, xx, x0, y0, amp, sx, sy, theta):
 
 
 def make_scene(rng, *, flavour='general', margin=MARGIN, integer=False, nonneg=False,
-               nsrc=None, core=None, max_sigma=2.6, nonfinite=False, round_sources=False, hostile=False, elongated=None, edge=7.0, scale=1.0):
+               nsrc=None, core=None, max_sigma=2.6, nonfinite=False, round_sources=False, hostile=False, elongated=None, edge=7.0, scale=1.0, int_max=None):
     """Random asymmetric scene.
 
     flavour: 'general' (3-8 elliptical Gaussians, some close pairs), 'stars' (round-ish, compact,
@@ -248,13 +248,19 @@ def make_scene(rng, *, flavour='general', margin=MARGIN, integer=False, nonneg=F
     # error map: positive everywhere, with structure (a wrong error cutout must show)
     error = np.sqrt(sigma_n ** 2 + np.abs(model) / float(rng.uniform(2.0, 8.0))) * (1.0 + 0.002 * xx + 0.001 * yy)
     if integer:
-        data = np.rint(data * 8.0)                      # keep sub-sigma structure after rounding
-        model = model * 8.0
-        sigma_n = sigma_n * 8.0
-        offset = offset * 8.0
-        error = np.rint(error * 24.0) + 1.0          # up to ~400: error**2 does not fit int16 / uint16
-        bkg = np.rint(bkg * 8.0)
-        srcs = [(s[0], s[1], s[2] * 8.0) + s[3:] for s in srcs]
+        f_ = 8.0                                        # keep sub-sigma structure after rounding
+        fe_ = 24.0                                      # errors up to ~400: error**2 does not fit int16 / uint16
+        if int_max is not None:
+            # narrow dtype (uint8): everything must fit [0, int_max]
+            f_ = min(8.0, (int_max - 8.0) / max(float(np.abs(data).max()), float(bkg.max()) + float(np.abs(data).max())))
+            fe_ = min(24.0, (int_max - 2.0) / float(error.max()))
+        data = np.rint(data * f_)
+        model = model * f_
+        sigma_n = sigma_n * f_
+        offset = offset * f_
+        error = np.rint(error * fe_) + 1.0
+        bkg = np.rint(bkg * f_)
+        srcs = [(s[0], s[1], s[2] * f_) + s[3:] for s in srcs]
     # segmentation map from the noise-free model (scipy.ndimage.label is trusted base)
     k = float(rng.uniform(1.0, 3.0))
     lab, nlab = ndi.label((model > k * sigma_n) & inside, structure=np.ones((3, 3)))
@@ -480,7 +486,7 @@ def scene_digest_arrays(scene):
 # C15: representations of the same numbers
 # ----------------------------------------------------------------------
 VALUE_PRESERVING = ['bigendian', 'fortran', 'negstride', 'sliced', 'maskedarray', 'nddata', 'quantity']
-PRECISION_CHANGING = ['int16', 'int32', 'int64', 'uint16', 'float32']
+PRECISION_CHANGING = ['int16', 'int32', 'int64', 'uint16', 'float32', 'uint8', 'uint32']
 
 
 def represent(arr, variant, rng=None):
@@ -503,7 +509,7 @@ def represent(arr, variant, rng=None):
         return big[1:1 + 2 * ny:2, 2:2 + 3 * nx:3]
     if variant == 'maskedarray':
         return np.ma.MaskedArray(a.copy(), mask=np.zeros(a.shape, bool))
-    if variant in ('int16', 'int32', 'int64', 'uint16', 'float32'):
+    if variant in ('int16', 'int32', 'int64', 'uint16', 'float32', 'uint8', 'uint32'):
         out = a.astype(variant)
         if not np.array_equal(out.astype(np.float64), a):
             raise AssertionError(f'harness: values not exactly representable as {variant}')
